@@ -153,6 +153,10 @@ def c13(tier, seed):
         explore_and_replay(rep, m, clauses_of("C13"))
     # longer random behaviours of the fault model (path diversity beyond the depth bound)
     simulate(rep, ms[0], clauses_of("C13"), 1500 if tier == "quick" else 20000, 9 if tier == "quick" else 14, seed)
+    # code -> spec at the level of the whole environment: recorded TradingEnv episodes in which quotes lose a side and contracts
+    # are discontinued; step() must fail exactly where the specification's valuation / rebalance fails, atomically
+    from . import envledger_check
+    envledger_check.validate(rep, "C13", 12 if tier == "quick" else 150, seed, tier)
     return rep.finish()
 
 
